@@ -44,7 +44,8 @@ Inductive tag : Type :=
 
 Inductive tolk := TFwd | TGrad.
 Inductive skind := KF | KB | KG.   (* forward, back-propagation, jvec solve *)
-Record solve := mkSolve { so_kind : skind; so_slot : nat; so_tol : tolk; so_warm : bool }.
+(* so_model: the model version handed to the solver for this solve *)
+Record solve := mkSolve { so_kind : skind; so_slot : nat; so_tol : tolk; so_warm : bool; so_model : nat }.
 
 Inductive cwhat := CComputed | CKeep | CAll.
 Inductive dwhat := DComputed | DResults | DAll | DPlain.
@@ -56,7 +57,10 @@ Inductive sop : Type :=
 | OGetE (i : nat) | OGetH (i : nat)
 | OClean (c : cwhat)
 | OExport (x : via) (d : dwhat)        (* copy / to_dict(copy=True)+from_dict / to_file+from_file *)
-| OSetModel (m : nat) (all : bool).   (* in-place model update followed by clean('all' | 'computed') *)
+| OSetModel (m : nat) (all repl : bool).
+   (* model update -- in place (sim.model.property_x[...] = ...) or, repl, by replacing the
+      object (sim.model = new) -- followed by clean('all' | 'computed').  The code reads
+      self.model afresh for every solve, so both variants act alike on the tags. *)
 
 Inductive err := EAttr | EFile | EType.
 Inductive ret := RNone | RVal (t : tag) | RBadType | RNew (k : nat) | RErr (e : err).
@@ -151,7 +155,7 @@ Definition compute_slots (file : bool) (store : nat -> option tag) (s : sim) (sl
            | [] => s end) store [] (Some EFile)
   else
     let m := s_model s in
-    let tr := map (fun i => mkSolve KF i TFwd (isSome (eff file store s i))) sl in
+    let tr := map (fun i => mkSolve KF i TFwd (isSome (eff file store s i)) (s_model s)) sl in
     let e' := fun i => if mem i sl then Some (Efield m i) else s_efield s i in
     let y' := fun i => if mem i sl then Syn m i else s_syn s i in
     let st' := fun i => if file && mem i sl then Some (Efield m i) else store i in
@@ -171,7 +175,7 @@ Definition ensure_all (n : nat) (file : bool) (store : nat -> option tag) (s : s
   let upto := match stop with Some k => k | None => n end in
   let todo := filter (fun i => negb (isSome (s_efield s i))) (seq 0 upto) in
   let m := s_model s in
-  let tr := map (fun i => mkSolve KF i TFwd false) todo in
+  let tr := map (fun i => mkSolve KF i TFwd false (s_model s)) todo in
   let e' := fun i => if mem i todo then Some (Efield m i) else s_efield s i in
   let y' := fun i => if mem i todo then Syn m i else s_syn s i in
   let st' := fun i => if file && mem i todo then Some (Efield m i) else store i in
@@ -229,14 +233,14 @@ Definition misfit_ret (q : quirks) (s : sim) : ret :=
   | None => RNone
   end.
 
-Definition bsolves (n : nat) (warm : bool) : list solve :=
-  map (fun i => mkSolve KB i TGrad warm) (seq 0 n).
+Definition bsolves (n : nat) (warm : bool) (m : nat) : list solve :=
+  map (fun i => mkSolve KB i TGrad warm m) (seq 0 n).
 
 (* the part of `gradient` after `_ = self.misfit`: _bcompute, then the loop
    over the slots that multiplies forward and back-propagated fields *)
 Definition grad_core (q : quirks) (n : nat) (file : bool) (store : nat -> option tag) (s1 : sim) : res :=
   (* _bcompute: creates the bfield dictionaries, sets tol_gradient, solves *)
-  let tb := bsolves n (s_bfield s1) in
+  let tb := bsolves n (s_bfield s1) (s_model s1) in
   let s2 := set_tol (set_grad s1 None true) TGrad in
   if q_keep q then
     (* loop reads the dictionary directly *)
@@ -268,7 +272,7 @@ Definition do_gradient (q : quirks) (n : nat) (file : bool) (store : nat -> opti
     end
   end.
 
-Definition gsolves (n : nat) : list solve := map (fun i => mkSolve KG i TGrad false) (seq 0 n).
+Definition gsolves (n : nat) (m : nat) : list solve := map (fun i => mkSolve KG i TGrad false m) (seq 0 n).
 
 (* the part of `jvec` after `_ = self.misfit` *)
 Definition jvec_core (q : quirks) (n : nat) (file : bool) (store : nat -> option tag) (s1 : sim) (v : nat) : res :=
@@ -282,7 +286,7 @@ Definition jvec_core (q : quirks) (n : nat) (file : bool) (store : nat -> option
         mkRes (match k with O => s1 | S _ => set_tol s1 TGrad end) store []
               (Some (if isSome (s_efield s1 k) then EFile else EAttr))
       | None =>
-        mkRes (set_jvec (set_tol s1 TGrad) (Some (jv_of n file store s1 v))) store (gsolves n) None
+        mkRes (set_jvec (set_tol s1 TGrad) (Some (jv_of n file store s1 v))) store (gsolves n (s_model s1)) None
       end
     end
   else
@@ -298,7 +302,7 @@ Definition jvec_core (q : quirks) (n : nat) (file : bool) (store : nat -> option
       let s3 := r_sim r2 in
       mkRes (set_jvec (match n with O => s3 | S _ => set_tol s3 TGrad end)
                       (Some (jv_of n file (r_store r2) s3 v)))
-            (r_store r2) (r_trace r2 ++ gsolves n) None
+            (r_store r2) (r_trace r2 ++ gsolves n (s_model s1)) None
     end.
 
 Definition do_jvec (q : quirks) (n : nat) (file : bool) (store : nat -> option tag) (s : sim) (v : nat) : res :=
@@ -411,7 +415,7 @@ Definition step (q : quirks) (w : world) (ko : nat * sop) : world * obs :=
         if json_fails q s x then (put w k s' store, mkObs (RErr EType) [])
         else (mkWorld n file (upd_nth k s' (w_sims w) ++ [export_new s x d]) store,
               mkObs (RNew (length (w_sims w))) [])
-    | OSetModel m all =>
+    | OSetModel m all _ =>
         let c := if all then CAll else CComputed in
         let s1 := mkSim m (s_computed s) (s_misfit s) (s_misfit_np s) (s_gradient s) (s_efield s)
                         (s_bfield s) (s_syn s) (s_residual s) (s_weights s) (s_jvec s) (s_tol s) in
@@ -460,7 +464,7 @@ Definition enc_world (w : world) : list (list Z) :=
   map (enc_sim (w_n w) (w_file w) (w_store w)) (w_sims w).
 Definition enc_solve (s : solve) : list Z :=
   [match so_kind s with KF => 0 | KB => 1 | KG => 2 end; zn (so_slot s);
-   match so_tol s with TFwd => 0 | TGrad => 1 end; zb (so_warm s)].
+   match so_tol s with TFwd => 0 | TGrad => 1 end; zb (so_warm s); zn (so_model s)].
 Definition enc_ret (r : ret) : list Z :=
   match r with
   | RNone => [0; 0; 0; 0] | RVal t => 1 :: enc_tag t | RBadType => [2; 0; 0; 0]
